@@ -11,6 +11,7 @@ Oracle: every variant must have the same outcome record and the same workspace d
 (raw bytes when the workspace path is the same, decoded contents with the path masked otherwise).
 """
 import json
+import time
 import os
 import random
 import shutil
@@ -36,7 +37,7 @@ ASSUMPTIONS = [
     "files are compared as raw bytes when the workspace path is identical, and as decoded feather rows / text with the workspace path masked otherwise",
     "a front-end crash or error exit is an outcome and is compared like any other",
 ]
-PROBES = ["nonempty_tables", "hashseed_varied", "dirent_varied", "heap_varied", "clock_varied", "env_varied", "env_ascii_locale", "install_via_symlink", "ws_sibling", "ws_otherfs", "ws_relative", "ws_symlink",
+PROBES = ["nonempty_tables", "hashseed_varied", "dirent_varied", "heap_varied", "clock_varied", "env_varied", "env_ascii_locale", "install_via_symlink", "concurrent_process", "concurrent_context_switches", "ws_sibling", "ws_otherfs", "ws_relative", "ws_symlink",
           "cwd_varied", "pyopt_varied", "ws_symlink_inner", "ws_named_externs", "ws_named_src", "ws_named_default", "ws_named_glob", "ws_named_braces", "ws_symlink_sub", "history_other_settings",
           "history_same_project", "history_other_project", "history_crashed_run", "multi_file_project", "corpus_project",
           "generated_project", "sub_run", "sub_semantic", "taint_phase_ran", "baseline_completed", "baseline_ended_early", "not_quiet", "taint_report_written"]
@@ -129,16 +130,20 @@ ENV_SETS = [{"TZ": "Asia/Tokyo"}, {"TZ": "America/St_Johns", "COLUMNS": "40", "L
             {"_umask": "077"}, {"_umask": "000", "TERM": "xterm-256color", "FORCE_COLOR": "1"}, {"_close_stdin": "1"},
             {"PYTHONUNBUFFERED": "1", "PYTHONFAULTHANDLER": "1"}, {"USER": "someone", "LOGNAME": "someone", "SHELL": "/bin/false"}]
 HIST_CYCLE = [{"proj": "B"}, {"proj": "A"}, {"proj": "B"}, {"proj": "B", "crash_at": 15}, {"proj": "B", "settings": "alt"}]
-DIM_CYCLE = ["ws", "hashseed", "history", "ws", "dirent", "pyopt", "ws", "heap", "cwd", "clock", "env", "install"]
+DIM_CYCLE = ["ws", "hashseed", "history", "ws", "dirent", "pyopt", "ws", "heap", "cwd", "clock", "env", "install", "concurrent"]
 
 
 def _gen_variant(rng, baseline, forced_dim=None, forced_ws=None):
     v = dict(baseline)
-    dims = rng.sample(["hashseed", "dirent", "heap", "ws", "history", "cwd", "pyopt", "clock", "env", "install"], rng.choice([1, 1, 1, 2, 3]))
+    dims = rng.sample(["hashseed", "dirent", "heap", "ws", "history", "cwd", "pyopt", "clock", "env", "install", "concurrent"], rng.choice([1, 1, 1, 2, 3]))
     if forced_dim and forced_dim not in dims:
         dims.append(forced_dim)         # stratification: every dimension (and every workspace location) turns up regularly
     if "pyopt" in dims:
         v["pyopt"] = rng.choice([1, 1, 2])      # the analysing interpreter started with -O / -OO
+    if "concurrent" in dims:
+        # another lian process analyses the other project on the same machine AT THE SAME TIME (own workspace, same temporary
+        # directory, same home, same settings); the interleaving of their file-system events is decided by this seed
+        v["concurrent"] = {"seed": rng.randrange(1, 2 ** 31), "other": rng.choice(["B", "B", "A_elsewhere"])}
     if "install" in dims:
         v["install"] = "symlink"          # lian itself imported through a symlinked directory (/opt/lian -> /opt/lian-1.4)
     if "env" in dims:
@@ -214,7 +219,7 @@ def generate(rng, k):
         lang_op["quiet"] = False          # the workspace on another file system than the temporary directory: all report files
         lang_op["sub"] = "run"
     ops.append(lang_op)
-    baseline = {"op": "variant", "hashseed": 0, "dirent": "natural", "heap_pad": 0, "ws": "same", "history": [], "clock": "natural", "env": {}, "install": "plain"}
+    baseline = {"op": "variant", "hashseed": 0, "dirent": "natural", "heap_pad": 0, "ws": "same", "history": [], "clock": "natural", "env": {}, "install": "plain", "concurrent": None}
     ops.append(baseline)
     all_ascii = all(op["content"].isascii() and op["path"].isascii() for op in ops if op["op"] in ("file", "otherfile"))
     for j in range(k["n_variants"] - 1):
@@ -250,7 +255,7 @@ def _write_project(d, files):
             f.write(op["content"])
 
 
-def _run_child(B, n, spec, hashseed, pyopt=0):
+def _run_child(B, n, spec, hashseed, pyopt=0, prepare_only=False):
     trial_path = os.path.join(B, f"trial{n}.json")
     out_path = os.path.join(B, f"out{n}.json")
     for p in (out_path, out_path + ".stdio"):
@@ -282,6 +287,8 @@ def _run_child(B, n, spec, hashseed, pyopt=0):
     if os.path.isdir(os.path.join(B, "tmp")):
         env["TMPDIR"] = os.path.join(B, "tmp")       # the temporary directory of the simulated machine (survives between its runs)
     os.makedirs(env["HOME"], exist_ok=True)
+    if prepare_only:
+        return cmd, env, out_path
     try:
         r = subprocess.run(cmd, env=env, capture_output=True, text=True, timeout=600, cwd=B)
     except subprocess.TimeoutExpired:
@@ -289,6 +296,84 @@ def _run_child(B, n, spec, hashseed, pyopt=0):
     if os.path.exists(out_path):
         return json.load(open(out_path))
     return {"status": f"died:{r.returncode}", "detail": (r.stderr or "")[-300:].replace(B, "<B>"), "stdio_sha": "", "files": {}}
+
+
+def _run_pair(B, n1, spec1, n2, spec2, hashseed, pyopt, sched_seed):
+    """Two lian processes on one simulated machine AT THE SAME TIME, interleaved by a seeded scheduler at the granularity of
+    mutating file-system events: each child parks in its audit hook before every such event (it writes one byte to its
+    'ready' pipe and waits for one byte on its 'go' pipe); the scheduler waits until every live child is parked or has
+    exited and then releases exactly one of them, chosen by the PRNG.  One seed = one interleaving.
+    -> (record of the first child, record of the second child, number of scheduling decisions, number of context switches)"""
+    import random
+    import select
+    kids = []
+    for n, spec in ((n1, spec1), (n2, spec2)):
+        ready_r, ready_w = os.pipe()
+        go_r, go_w = os.pipe()
+        cmd, env, out_path = _run_child(B, n, dict(spec, sched_fds=[ready_w, go_r]), hashseed, pyopt, prepare_only=True)
+        proc = subprocess.Popen(cmd, env=env, stdout=subprocess.DEVNULL, stderr=subprocess.PIPE, cwd=B, pass_fds=(ready_w, go_r))
+        os.close(ready_w)
+        os.close(go_r)
+        kids.append({"proc": proc, "ready_r": ready_r, "go_w": go_w, "out": out_path, "parked": False, "alive": True})
+    rng = random.Random(sched_seed)
+    decisions = switches = 0
+    picks = []                 # the interleaving: which process was released at each decision
+    last = None
+    deadline = time.time() + 600
+    burst = 0
+    while any(k_["alive"] for k_ in kids) and time.time() < deadline:
+        # wait until every live child is parked (or gone)
+        for k_ in kids:
+            while k_["alive"] and not k_["parked"] and time.time() < deadline:
+                r_, _, _ = select.select([k_["ready_r"]], [], [], 1.0)
+                if r_:
+                    b_ = os.read(k_["ready_r"], 1)
+                    if b_:
+                        k_["parked"] = True
+                    else:
+                        k_["alive"] = False          # EOF: the child has exited (or closed its end)
+        parked = [i for i, k_ in enumerate(kids) if k_["alive"] and k_["parked"]]
+        if not parked:
+            continue
+        # seeded choice with bursts: stay with the same child for a while, or switch
+        if last in parked and burst > 0:
+            pick = last
+            burst -= 1
+        else:
+            pick = rng.choice(parked)
+            burst = rng.choice([0, 0, 1, 3, 8, 30])
+        decisions += 1
+        picks.append(pick)
+        if last is not None and pick != last:
+            switches += 1
+        last = pick
+        kids[pick]["parked"] = False
+        try:
+            os.write(kids[pick]["go_w"], b"g")
+        except OSError:
+            kids[pick]["alive"] = False
+    recs = []
+    for k_ in kids:
+        try:
+            k_["proc"].wait(timeout=30)
+        except subprocess.TimeoutExpired:
+            k_["proc"].kill()
+        err = ""
+        try:
+            err = (k_["proc"].stderr.read() or b"").decode(errors="replace")[-300:]
+        except Exception:  # noqa
+            pass
+        for fd in (k_["ready_r"], k_["go_w"]):
+            try:
+                os.close(fd)
+            except OSError:
+                pass
+        if os.path.exists(k_["out"]):
+            recs.append(json.load(open(k_["out"])))
+        else:
+            recs.append({"status": f"died:{k_['proc'].returncode}", "detail": err.replace(B, "<B>"), "stdio_sha": "", "files": {}})
+    recs[0]["interleaving"] = h64("".join(str(x) for x in picks))
+    return recs[0], recs[1], decisions, switches
 
 
 def execute(trace):
@@ -333,6 +418,7 @@ def execute(trace):
         proj_digest = h64(canon_json([[f["path"], f["content"]] for f in files]))
         base_rec, base_v = None, None
         n_child = 0
+        sched = [0]                   # scheduling decisions taken for concurrent pairs
         clock_reads = [0, 0.0]        # clock reads and simulated seconds of the children that ran under the simulated clock
         for step, v in variants:
             # ---- workspace location of this variant
@@ -427,7 +513,20 @@ def execute(trace):
                         shutil.copy2(os.path.join(_settings, n_), os.path.join(run_settings, n_))
                 hit({"A": "history_same_project", "B": "history_crashed_run" if h.get("crash_at") else "history_other_project"}[h["proj"]])
             n_child += 1
-            rec = _run_child(B, n_child, spec_for(projA), v.get("hashseed", 0), v.get("pyopt", 0))
+            if v.get("concurrent"):
+                cc = v["concurrent"]
+                other_spec = spec_for(projB if cc.get("other", "B") == "B" else projA)
+                w_other = os.path.join(B, "ws_of_the_other_process")
+                other_spec["argv"] = [w_other if a_ == w_arg else a_ for a_ in other_spec["argv"]]
+                other_spec["ws"] = os.path.join(w_other, "lian_workspace")
+                n_child += 1
+                rec, rec_other, n_dec, n_sw = _run_pair(B, n_child - 1, spec_for(projA), n_child, other_spec, v.get("hashseed", 0), v.get("pyopt", 0), cc["seed"])
+                hit("concurrent_process")
+                log.append(["interleaving", n_dec, n_sw, rec.get("interleaving"), rec_other.get("status")])
+                hit("concurrent_context_switches", n_sw)
+                sched[0] += n_dec
+            else:
+                rec = _run_child(B, n_child, spec_for(projA), v.get("hashseed", 0), v.get("pyopt", 0))
             if rec.get("clock"):
                 clock_reads[0] += rec["clock"]["reads"]
                 clock_reads[1] += rec["clock"]["simulated_seconds"]
@@ -468,6 +567,8 @@ def execute(trace):
             if (v.get("install") or "plain") != (base_v.get("install") or "plain"):
                 dims.append("install")
                 hit("install_via_symlink")
+            if v.get("concurrent"):
+                dims.append("concurrent")
             if wsk != base_v.get("ws", "same"):
                 dims.append("ws")
                 hit("ws_" + wsk)
@@ -509,7 +610,8 @@ def execute(trace):
     return {"violation": violation, "probes": probes, "states": states, "trans": trans, "steps": len(log),
             "log": digest_hex([log, None if violation is None else [violation["cls"], violation["detail"]["differing_files"]]]),
             "extra": {"lian_processes": sum(1 for _ in log) + sum(len(v.get("history", [])) for _, v in variants),
-                      "clock_reads_under_simulated_clock": clock_reads[0], "simulated_clock_seconds": int(clock_reads[1])}}
+                      "clock_reads_under_simulated_clock": clock_reads[0], "simulated_clock_seconds": int(clock_reads[1]),
+                      "scheduling_decisions": sched[0]}}
 
 
 # ----------------------------------------------------------------------------- signature / simplification
@@ -543,7 +645,7 @@ def simplify(trace):
         base = ops[vidx[0]]
         for i in vidx[1:]:
             v = ops[i]
-            for dim, key in (("history", "history"), ("ws", "ws"), ("cwd", "cwd"), ("pyopt", "pyopt"), ("heap", "heap_pad"), ("clock", "clock"), ("env", "env"), ("install", "install"), ("dirent", "dirent"), ("hashseed", "hashseed")):
+            for dim, key in (("history", "history"), ("ws", "ws"), ("cwd", "cwd"), ("pyopt", "pyopt"), ("heap", "heap_pad"), ("clock", "clock"), ("env", "env"), ("install", "install"), ("concurrent", "concurrent"), ("dirent", "dirent"), ("hashseed", "hashseed")):
                 if v.get(key) != base.get(key):
                     yield dict(trace, ops=ops[:i] + [dict(v, **{key: base.get(key)})] + ops[i + 1:])
             if len(v.get("history", [])) > 1:
